@@ -482,8 +482,11 @@ pub fn minimise(sc0: &Scenario, budget: usize) -> Option<Minimised> {
     let mut best = sc0.clone();
     let mut best_v = first_viol(&r0, &prop).unwrap();
     let mut evals = 1usize;
+    // wall-clock bound as well: the candidates of an ultra-long stream take a minute each
+    let t_start = Instant::now();
+    let t_budget = Duration::from_secs(if budget > 100 { 420 } else { 150 });
     let try_cand = |cand: &Scenario, best: &mut Scenario, best_v: &mut V, evals: &mut usize| -> bool {
-        if *evals >= budget {
+        if *evals >= budget || t_start.elapsed() > t_budget {
             return false;
         }
         *evals += 1;
@@ -496,6 +499,18 @@ pub fn minimise(sc0: &Scenario, budget: usize) -> Option<Minimised> {
             false
         }
     };
+    // 0. streams: shorten the repetition count first (every later candidate then costs less)
+    while best.repeat > 0 {
+        let mut cand = best.clone();
+        cand.repeat = best.repeat / 2;
+        if !try_cand(&cand, &mut best, &mut best_v, &mut evals) {
+            let mut cand = best.clone();
+            cand.repeat = best.repeat / 4 * 3;
+            if cand.repeat == best.repeat || !try_cand(&cand, &mut best, &mut best_v, &mut evals) {
+                break;
+            }
+        }
+    }
     // 1. cut after the failing step
     if best_v.clause != "process-died" && best_v.step + 1 < best.ops.len() {
         let cand = drop_ops(&best, best_v.step + 1, best.ops.len());
